@@ -19,6 +19,9 @@ type Spell struct {
 	Delims []string // objectLeft, objectRight, tagLeft, tagRight (default {{ }} {% %}), as spelled in the template
 	Raw    []string // what is passed to Engine.Delims (an empty string selects the default), nil: not configured
 	Tight  bool     // no whitespace just inside the delimiters
+	// ModOrder rotates the order in which the loop modifiers (reversed, offset, limit, cols) are written: what a loop
+	// selects does not depend on the order its modifiers are spelled in
+	ModOrder int
 }
 
 func spellFromJSON(x any) Spell {
@@ -44,6 +47,7 @@ func spellFromJSON(x any) Spell {
 		s.Delims = eff
 	}
 	s.Tight = jbool(m, "tight")
+	s.ModOrder = jint(m, "modorder")
 	return s
 }
 
@@ -581,8 +585,9 @@ func (p *printer) node1(it *item) (string, error) {
 			coll = "(" + coll + ")"
 		}
 		head := name + sp + bytesOf(n["var"]) + sp + "in" + sp + coll
+		mods := []string{}
 		if jbool(n, "rev") {
-			head += sp + "reversed"
+			mods = append(mods, "reversed")
 		}
 		for _, m := range [][2]string{{"off", "offset"}, {"lim", "limit"}, {"cols", "cols"}} {
 			if ex, ok := n[m[0]]; ok {
@@ -590,8 +595,21 @@ func (p *printer) node1(it *item) (string, error) {
 				if err != nil {
 					return "", err
 				}
-				head += sp + m[1] + ":" + s
+				mods = append(mods, m[1]+":"+s)
 			}
+		}
+		if k := p.sp.ModOrder; k > 0 && len(mods) > 1 {
+			// the k-th rotation, reversed for odd k
+			r := k % len(mods)
+			mods = append(append([]string{}, mods[r:]...), mods[:r]...)
+			if k%2 == 1 {
+				for i, j := 0, len(mods)-1; i < j; i, j = i+1, j-1 {
+					mods[i], mods[j] = mods[j], mods[i]
+				}
+			}
+		}
+		for _, m := range mods {
+			head += sp + m
 		}
 		var sb strings.Builder
 		b, leadR, trailL, err := p.body(jarr(n, "body"))
